@@ -371,10 +371,10 @@ theorem recoverWalCfg_spec (fix : Bool) (m1 : Mem) (ft : Nat) (hok : AllOk m1.fr
     simp only [h1]
     have hmb : (if (fix && !δ.embs.isEmpty && !ma.vecEnabled) = true then ({ ma with vecEnabled := true } : Mem) else ma).frames = ma.frames := by
       split <;> rfl
+    generalize (if (fix && !δ.embs.isEmpty && !ma.vecEnabled) = true then ({ ma with vecEnabled := true } : Mem) else ma) = mb at hmb ⊢
     refine ⟨⟨?_, rfl⟩, ?_⟩
     · intro r hr; cases hr
-    · show ((if δ.nonEmpty = true then (if (fix && !δ.embs.isEmpty && !ma.vecEnabled) = true then ({ ma with vecEnabled := true } : Mem) else ma).rebuildIndexes δ.embs δ.inserted ft
-          else (if (fix && !δ.embs.isEmpty && !ma.vecEnabled) = true then ({ ma with vecEnabled := true } : Mem) else ma).flushTantivy ft)).frames.map view = _
+    · show ((if δ.nonEmpty = true then mb.rebuildIndexes δ.embs δ.inserted ft else mb.flushTantivy ft)).frames.map view = _
       rw [← hv, ← hmb]
       split
       · exact (rebuildIndexes_skel _ _ _ ft).frames
@@ -384,7 +384,8 @@ theorem crashCfg_sim (fix : Bool) (m : Mem) (ft : Nat) (hi : Inv m) :
     Quiet (m.crashCfg fix ft).1 ∧ abs (m.crashCfg fix ft).1 = abs m ∧ (m.crashCfg fix ft).1.frames.map view = abs m := by
   obtain ⟨hq, hf⟩ := recoverWalCfg_spec fix ({ m with queue := m.pQueue } : Mem).openLoad.loadTracks ft hi.ok rfl
   have hf' : (m.crashCfg fix ft).1.frames.map view = abs m := hf
-  exact ⟨hq, by rw [Quiet.abs_eq hq, hf'], hf'⟩
+  have hq' : Quiet (m.crashCfg fix ft).1 := hq
+  exact ⟨hq', by rw [hq'.abs_eq, hf'], hf'⟩
 
 /-- ONE STEP of `stepCfg`: the C01 simulation holds with either crash recovery -/
 theorem core_stepCfg (fix : Bool) (m : Mem) (op : Op) (hi : Inv m) :
